@@ -40,37 +40,38 @@ pub fn mem_desc_bytes<'a>(img: &'a [u8], m: &MemDesc) -> Option<&'a [u8]> {
     }
 }
 
-/// Aggregated mapping (as the property statements use the word): the maximal run of contiguous
-/// memory-map lines with the same non-empty name around `addr`; anonymous lines stand alone.
+/// Aggregated mapping (as the property statements use the word): contiguous memory-map lines merge
+/// when they carry the same non-empty name, or when the line is the loader's inaccessible reserved
+/// gap (anonymous, private, no permissions, offset 0) directly after, or between two parts of, an
+/// executable file mapping. Returns the hull of the group containing `addr`.
 pub fn mapping_hull(w: &World, addr: u64) -> Option<(u64, u64)> {
-    let i = w.regions.iter().position(|r| addr >= r.start && addr - r.start < r.len)?;
-    let r = &w.regions[i];
-    let mut lo = r.start;
-    let mut hi = r.end();
-    if r.name.0.is_empty() {
-        return Some((lo, hi));
-    }
-    let mut k = i;
-    while k > 0 {
-        let p = &w.regions[k - 1];
-        if p.end() == lo && p.name == r.name {
-            lo = p.start;
-            k -= 1;
-        } else {
-            break;
+    let rs = &w.regions;
+    let mut groups: Vec<(u64, u64, Vec<u8>, bool)> = Vec::new(); // start, end, name, exec
+    let mut i = 0usize;
+    while i < rs.len() {
+        let r = &rs[i];
+        let is_gap = r.name.0.is_empty() && r.perms == "---p" && r.offset == 0;
+        if let Some(g) = groups.last_mut() {
+            let contiguous = g.1 == r.start;
+            if contiguous && !g.2.is_empty() && g.2 == r.name.0 {
+                g.1 = r.end();
+                g.3 |= r.perms.as_bytes()[2] == b'x';
+                i += 1;
+                continue;
+            }
+            if contiguous && g.2.contains(&b'/') && is_gap {
+                let between = rs.get(i + 1).map(|n| n.start == r.end() && n.name.0 == g.2).unwrap_or(false);
+                if g.3 || between {
+                    g.1 = r.end();
+                    i += 1;
+                    continue;
+                }
+            }
         }
+        groups.push((r.start, r.end(), r.name.0.clone(), r.perms.as_bytes()[2] == b'x'));
+        i += 1;
     }
-    let mut k = i;
-    while k + 1 < w.regions.len() {
-        let n = &w.regions[k + 1];
-        if n.start == hi && n.name == r.name {
-            hi = n.end();
-            k += 1;
-        } else {
-            break;
-        }
-    }
-    Some((lo, hi))
+    groups.iter().find(|g| addr >= g.0 && addr < g.1).map(|g| (g.0, g.1))
 }
 
 pub fn region_of(w: &World, addr: u64) -> Option<&RegionSpec> {
